@@ -82,6 +82,32 @@ class ExprMixin:
             raise SpecError(f"spec expression forks: {ast.unparse(node)}")
         return res[0][1]
 
+    def ev_join(self, node, st):
+        """evaluate a side-effect free expression that may fork internally (calls with branches) and join the
+        results into one value; obligations are not emitted (the expression is re-evaluated per use)"""
+        self.spec_depth += 1          # no obligations, no allocation
+        saved_raises = self.pending_raises
+        self.pending_raises = []
+        self.join_mode += 1
+        try:
+            res = self.ev(node, st.fork())
+            raised = self.pending_raises
+        finally:
+            self.spec_depth -= 1
+            self.join_mode -= 1
+            self.pending_raises = saved_raises
+        raised = [(s_, e) for s_, e in raised if feasible(s_.pc)]
+        if raised:
+            raise Unsupported(f"element expression may raise {raised[0][1]}", node)
+        if len(res) == 1:
+            return self.deref(res[0][1], res[0][0])
+        for s_, v in res:
+            s_.locals = dict(s_.locals, __join=self.deref(v, s_))
+        m = merge_states([s_ for s_, _ in res])
+        if m is None:
+            raise Unsupported("cannot join forked element expression", node)
+        return m.locals["__join"]
+
     def ev_seq(self, nodes, st):
         """evaluate nodes left to right -> list[(st, [values])]"""
         acc = [(st, [])]
@@ -308,7 +334,12 @@ class ExprMixin:
                 merged = None
                 if len(rs) == 1 and len(rs[0][0].pc) == len(s_rest.pc) and not self.effects_since(s_rest, rs[0][0]):
                     try:
-                        merged = self.merge_short(take_v, v, rs[0][1], is_and, s)
+                        rv = rs[0][1]
+                        if isinstance(rv, VRef) and isinstance(rs[0][0].heap.get(rv.oid), VSeq):
+                            vv = v.inner if isinstance(v, VOpt) else v
+                            if isinstance(vv, VSeq):
+                                rv = rs[0][0].heap[rv.oid]
+                        merged = self.merge_short(take_v, v, rv, is_and, s)
                     except MergeError:
                         merged = None
                 if merged is not None:
@@ -561,12 +592,16 @@ class ExprMixin:
             probe = s.fork()
             k0 = z3.Int(uid("ck"))
             self.assign_target(g.target, sq.elem(k0), probe)
-            etype = typeof(self.deref(self.ev1(node.elt, probe), probe))
+            pv = self.ev_join(node.elt, probe)
+            try:
+                etype = typeof(pv)
+            except TypeError:
+                etype = VAL
 
             def elem(k, s=s, sq=sq):
                 s2 = s.fork()
                 self.assign_target(g.target, sq.elem(k), s2)
-                return self.deref(self.ev1(node.elt, s2), s2)
+                return self.ev_join(node.elt, s2)
             out.append((s, self.fresh_list(VSeq(sq.len, elem, etype), s)))
         return out
 
